@@ -615,6 +615,7 @@ pub fn write_evidence(
                     J::str("transmitters / multiplexer / radio link (model: stations, scheduler, fault injector)"),
                     J::str("stdin/stdout/stderr of the in-process CLI runs (scripted reader, captured writers)"),
                     J::str("clock (none in the code; simulator step counter only)"),
+                    J::str("caller threads of C17's concurrent shape: real OS threads scheduled by the kernel in the native runs (confirmation only); under Miri (miri_slice) one OS thread, every preemption decided by Miri's scheduler from -Zmiri-seed"),
                 ])),
         )
         .set(
